@@ -280,13 +280,13 @@ def gen_cases(rng, tier, budget):
     # default configuration: cap left at its zero value (=> DefaultMaxSeriesPerMetric 10000) driven past the default,
     # sequentially and from 4 goroutines, for all three kinds; plus explicit small and negative (unbounded) caps
     for kind in "cgh":
-        cases.append("bulk %s 0 10400 1" % kind)
-        cases.append("bulk %s 0 10400 4" % kind)
-    cases += ["bulk c 7 60 3", "bulk g 1 40 4", "bulk h -1 10300 2", "bulk g -5 300 1", "rbulk g 0 10200 4"]
+        cases.append("bulk %s 0 +400 1" % kind)      # +400 = 400 tuples more than the package's default cap
+        cases.append("bulk %s 0 +400 4" % kind)
+    cases += ["bulk c 7 60 3", "bulk g 1 40 4", "bulk h -1 10300 2", "bulk g -5 300 1", "rbulk g 0 +200 4"]
     if not quick:
         for _ in range(12):
-            cases.append("bulk %s %d %d %d" % (rng.choice("cgh"), rng.choice([0, 0, 1, 3, 50, 9999, 10000, 10001, -1]),
-                                                 rng.choice([1, 5, 9999, 10000, 10001, 10400, 12000]), rng.randint(1, 6)))
+            cases.append("bulk %s %d %s %d" % (rng.choice("cgh"), rng.choice([0, 0, 1, 3, 50, 9999, 10000, 10001, -1]),
+                                                 rng.choice([1, 5, 9999, 10000, 10001, "+0", "+1", "+400", 12000]), rng.randint(1, 6)))
     return cases
 
 
@@ -370,7 +370,7 @@ def classify(case, impl, model):
         return "G", "not run: an earlier case of the batch hung"
     if case.startswith(("bulk", "rbulk")):
         t = case.split()
-        return "P", ("metric registered with MaxSeriesPerMetric=%s (0 = omitted => default 10000), %s distinct tuples from %s "
+        return "P", ("metric registered with MaxSeriesPerMetric=%s (0 = omitted => the default the package exports), %s distinct tuples from %s "
                      "goroutine(s): observed %r, the theorems allow %r (series <= cap, seriesCount = series, every emission in its "
                      "series or a cardinality drop)" % (t[2], t[3], t[4], impl, model))
     if case.startswith(("churn", "rchurn")):
@@ -414,12 +414,19 @@ def signature(case, impl, models):
 def shrink(case):
     t = case.split()
     if t[0] in ("bulk", "rbulk"):
-        n, g = int(t[3]), int(t[4])
+        g = int(t[4])
         if g > 1:
             yield " ".join(t[:4] + ["1"])
-        for m in (n // 2, n - 100, n - 1):
-            if 0 < m < n:
-                yield " ".join(t[:3] + [str(m), t[4]])
+        if t[3].startswith("+"):
+            k = int(t[3][1:])
+            for m in (k // 2, k - 1):
+                if 0 <= m < k:
+                    yield " ".join(t[:3] + ["+%d" % m, t[4]])
+        else:
+            n = int(t[3])
+            for m in (n // 2, n - 100, n - 1):
+                if 0 < m < n:
+                    yield " ".join(t[:3] + [str(m), t[4]])
         return
     if t[0] in ("churn", "rchurn"):
         for i in (5, 6, 7):                    # fewer unregisterers / creators / emitters
